@@ -209,6 +209,10 @@ func (x *g) genSchemes() {
 		sc := &spec.Scheme{Name: name, Kind: k}
 		if k == "jwt" || k == "oauth2" {
 			sc.Scopes = []string{"api:read", "api:write", "api:admin"}[:x.r.Range(1, 3)]
+			if k == "oauth2" && x.chance(1, 3) {
+				sc.Scopes = nil // flows without any scope
+				x.s.AddFeature("oauth2-without-scopes")
+			}
 		}
 		x.s.Schemes = append(x.s.Schemes, sc)
 		x.s.AddFeature("scheme-" + k)
